@@ -16,7 +16,7 @@ from .. import common, retmodel, symx
 from .. import terms as tm
 
 CANDIDATES = ['1040.occupation', '1040.filing_status', '1040.number_w-2', '1040.need_8962', '1040.estimated_tax_payments', '1040.first_name']
-KINDS = ['KeyboardInterrupt', 'EOFError', 'unsupported_form']
+KINDS = ['KeyboardInterrupt', 'EOFError', 'unsupported_form', 'invalid_then_interrupt']
 
 
 def sessions(tier):
